@@ -1,8 +1,10 @@
 #!/bin/sh
 # usage: tools/try_seeded.sh <seed dir with patch.diff> <property id> [more ids]
-# Applies the seeded change to /repo, runs the quick checks, reverts.  Prints one line per check.
+# Applies the seeded change to /repo, runs the quick checks, reverts (as the brief prescribes).
+# Do not use while other checks are running against /repo: they would see the seeded tree.
 d=$1; shift
 cd /repo || exit 2
+if pgrep -f "check.py C.. --tier" > /dev/null; then echo "another check is running against /repo: refusing"; exit 2; fi
 if [ -n "$(git status --porcelain)" ]; then echo "repo not clean"; exit 2; fi
 git apply "$d/patch.diff" || { echo "patch does not apply: $d"; exit 2; }
 for id in "$@"; do
